@@ -246,6 +246,32 @@ def extras_sweep():
                 yield doc, kind, opts
 
 
+KEYWORDISH = ["none", "None", "nones", "Nones", "true", "True", "trues", "falses", "False", "class", "classes", "import", "imports", "asyncs", "awaits",
+              "lambdas", "yields", "matches", "types", "passes", "nonlocals", "fors", "ifs", "is", "ises", "def", "defs"]
+
+
+def keyword_sweep():
+    """a word that is, or whose singular / capitalised form is, a Python keyword - at every place a class name is derived from a
+    name: inline object member, array of inline objects, array of inline enums, enum member, named definition, title"""
+    for w in KEYWORDISH:
+        obj = {"type": "object", "properties": {"a": {"type": "integer"}}}
+        enum = {"type": "string", "enum": ["x", "y"]}
+        shapes = {
+            "object-member": {"title": "Root", "type": "object", "properties": {w: obj}},
+            "array-of-objects": {"title": "Root", "type": "object", "properties": {w: {"type": "array", "items": obj}}},
+            "array-of-enums": {"title": "Root", "type": "object", "properties": {w: {"type": "array", "items": enum}}},
+            "enum-member": {"title": "Root", "type": "object", "properties": {w: enum}},
+            "definition": {"title": "Root", "type": "object", "properties": {"m": {"$ref": "#/definitions/" + w}}, "definitions": {w: obj}},
+            "title": {"title": w, "type": "object", "properties": {"a": {"type": "integer"}}},
+        }
+        for shape, doc in shapes.items():
+            yield "keyword-" + shape, doc, json.dumps(doc), "jsonschema"
+        if w[:1].isalpha():
+            for decl in ("type {w} {{ a: Int }}", "enum {w} {{ X Y }}", "interface {w} {{ a: Int }}", "input {w} {{ a: Int }}"):
+                sdl = decl.format(w=w) + "\ntype Query { q: " + ("Int" if decl.startswith("input") else w) + " }\n"
+                yield "keyword-graphql", sdl, sdl, "graphql"
+
+
 def correspond(ctx):
     from harness import reflect
     rng = ctx.rng("corr")
@@ -304,6 +330,11 @@ def falsify(ctx):
     sweep = list(extras_sweep())
     for doc, kind, opts in (sweep if ctx.thorough else rng.sample(sweep, 70)):
         go("extras", doc, json.dumps(doc), "jsonschema", False, True, kind, dict(opts), ())
+    ksweep = list(keyword_sweep())
+    for i, (family, payload, inp, ft) in enumerate(ksweep):
+        for kind in (KINDS if ctx.thorough else [KINDS[i % len(KINDS)], KINDS[(i // 2 + 2) % len(KINDS)]]):
+            # a title that is itself a keyword is refused with InvalidClassNameError: a reported error, which the property allows
+            go(family, payload, inp, ft, False, family != "keyword-title", kind, {}, ())
     for family, payload, inp, ft, modular, must in families(ctx, rng):
         kind = rng.choice(KINDS)
         opts = rand_opts(rng, kind)
